@@ -235,7 +235,7 @@ def op_key(op, B):
             kind, name = it[0], it[1]
             if kind in known:
                 if (kind, name) in seen or (name in known[kind] and (kind != "type" or arity.get(name) != it[2])):
-                    return "ext:readd-%s" % kind
+                    return "ext:%s" % {"type": "redeclare-type", "const": "readd-const", "thm": "replace-thm"}[kind]
                 seen.add((kind, name))
         return "ext:fresh"
     if k == "put":
